@@ -95,13 +95,14 @@ def _chunk(work):
     return out
 
 
-def _time_inputs(d):
+def _time_inputs(arg):
     import logging
     import sys
 
+    d, extra = arg
     sys.path.insert(0, os.environ.get("VERIF_REPO", "/repo"))
     logging.disable(logging.CRITICAL)
-    return gram.time_inputs(d, 6, 0)
+    return gram.time_inputs(d, 6, 0, extra)
 
 
 def native_tokens(sql):
@@ -171,10 +172,38 @@ def run(ctx):
 
     sys.path.insert(0, os.environ.get("VERIF_REPO", "/repo"))
     logging.disable(logging.CRITICAL)
+    # the model of format_time on the exported dialect tables: its forward images are replayed through the real function,
+    # and every string it flags (not longest-match / not idempotent) is fed to the real pipeline
+    tables = gram.time_tables()
+    tpath = os.path.join(ctx.work, "time_tables.json")
+    with open(tpath, "w") as f:
+        json.dump(tables, f)
+    tcfg = os.path.join(ctx.work, "timefmt.cfg")
+    with open(tcfg, "w") as f:
+        f.write("INIT Init\nNEXT Next\nINVARIANT Report\n")
+    tres = tlc.run("TimeFmt", tcfg, ctx.work, workers=1, timeout_s=1800, env={"TABLES": tpath}, allow_violation=False)
+    ctx.model(tres, "TimeFmt", tcfg, "format_time transcribed (Loop) vs longest match (LM) and idempotence of inverse o forward, on every key / adjacent pair / separated pair of every dialect's TIME_MAPPING")
+    rows, unparsed = gram.parse_timefmt(tres.stdout)
+    if len(rows) < 0.9 * tres.distinct:
+        raise MachineryError(f"TimeFmt printed {len(rows)} parsable tuples for {tres.distinct} states")
+    from sqlglot.dialects.dialect import Dialect
+    from sqlglot.time import format_time
+
+    flagged, mism = {}, 0
+    for (dn, s_), (f_, dev, non) in rows.items():
+        dd = Dialect.get_or_raise(None if dn == "base" else dn)
+        real = format_time(s_, dd.TIME_MAPPING, dd.TIME_TRIE)
+        if real != f_:
+            mism += 1
+            if mism <= 5:
+                ctx.drift(f"TimeFmt.Loop and sqlglot.time.format_time disagree for {dn} {s_!r}: model {f_!r}, code {real!r}")
+        if dev or non:
+            flagged.setdefault("" if dn == "base" else dn, []).append(f_)
+    ctx.notes["timefmt"] = {"strings": len(rows), "deviates_from_longest_match": sum(1 for v in rows.values() if v[1]), "model_non_idempotent": sum(1 for v in rows.values() if v[2]), "code_vs_model_mismatches": mism, "unparsed": unparsed}
     with ProcessPoolExecutor(max_workers=16) as ex:
-        for d, tis in zip(dialects, ex.map(_time_inputs, dialects)):
+        for d, tis in zip(dialects, ex.map(_time_inputs, [(d, tuple(sorted(set(flagged.get(d, []))))) for d in dialects])):
             for ti in tis:
-                single = len(native_tokens(ti["sql"])) <= 1
+                single = len(native_tokens(ti["sql"])) <= 1 or ti["fmt"] in flagged.get(d, ())
                 if ctx.thorough or single or gram.h(ti["sql"], d, "t") % 4 == ctx.seed % 4:
                     work.append({"sql": ti["sql"], "dialect": d, "src": "time", "fmt": ti["fmt"] if not d else None, "fn": ti["fn"], "tfmt": ti["fmt"]})
     chunks = [work[i::128] for i in range(128)]
